@@ -208,7 +208,14 @@ def _guard(fx):
     fn, x = fx
     try:
         return fn(x)
-    except BaseException:   # a crash in a worker is a checker error, never a verdict
+    except BaseException as e:   # a crash in a worker is a checker error, never a verdict
+        from .core import OutOfSubset
+        if isinstance(e, OutOfSubset):
+            # the unit as a whole is outside the encoding on this tree (e.g. the representation a data-structure contract
+            # is stated over has changed): undecided, left to the bounded stand-in
+            return dict(unit=repr(x)[:200], paths=0, stats={}, outcomes={}, assumptions=[], sample=None, wall=0.0, fns=[], job=x,
+                        results=[dict(name='%s/in-subset' % repr(x)[:80], kind='subset', verdict='unknown', backend='-', time=0.0,
+                                      detail=str(e), model=None)])
         return dict(_crash=traceback.format_exc(), unit=repr(x)[:200])
 
 
